@@ -41,6 +41,7 @@ pub fn prop() -> Prop {
         independent: &["harness algebra"],
         ref_sample: |_| 0,
         required_probes: &["refresh_dealer", "refresh_dkg", "refresh_twice", "participant_removed", "mix_old_new_failed", "removed_participant_failed", "reject_threshold_dealer", "reject_threshold_dkg", "reject_unknown_dealer", "reject_unknown_dkg", "reject_nonzero_dealer", "reject_nonzero_dkg", "signed_after_refresh", "keys_from_dkg"],
+        prepare: None,
     }
 }
 
